@@ -38,11 +38,11 @@ impl TopicName {
     pub closed spec fn p(&self) -> Seq<u8> { bx(self.project_id) }
     pub closed spec fn t(&self) -> Seq<u8> { bx(self.topic_id) }
 
-//@fn src/topics/topic_name.rs TopicName::try_parse tags=C17,C18
+//@fn src/topics/topic_name.rs TopicName::try_parse tags=C17
 //@ ret r
 //@ ensures[C18] r.is_some() ==> accepted_as(unparsed.spec_bytes(), mid_topics(), r.unwrap().p(), r.unwrap().t())
 //@ proof-start { lit_ax::lit_bytes(); }
-//@ proof-before /^\s*Some\(TopicName \{\s*$/ { let s = unparsed.spec_bytes(); let n = project_id.spec_bytes().len() as int; assert(s.subrange(9, s.len() as int).subrange(0, n) =~= s.subrange(9, 9 + n)); lemma_accept(s, mid_topics(), project_id.spec_bytes(), topic_id.spec_bytes()); }
+//@ proof-before[C18] /^\s*Some\(TopicName \{\s*$/ { let s = unparsed.spec_bytes(); let n = project_id.spec_bytes().len() as int; assert(s.subrange(9, s.len() as int).subrange(0, n) =~= s.subrange(9, 9 + n)); lemma_accept(s, mid_topics(), project_id.spec_bytes(), topic_id.spec_bytes()); }
 //@ closure 1 ret tr: &str
 //@ closure 1 ensures tr.spec_bytes() == trimmed(s.spec_bytes(), 47u8)
 //@end
@@ -68,11 +68,11 @@ impl SubscriptionName {
     pub closed spec fn p(&self) -> Seq<u8> { bx(self.project_id) }
     pub closed spec fn t(&self) -> Seq<u8> { bx(self.subscription_id) }
 
-//@fn src/subscriptions/subscription_name.rs SubscriptionName::try_parse tags=C17,C18
+//@fn src/subscriptions/subscription_name.rs SubscriptionName::try_parse tags=C17
 //@ ret r
 //@ ensures[C18] r.is_some() ==> accepted_as(unparsed.spec_bytes(), mid_subs(), r.unwrap().p(), r.unwrap().t())
 //@ proof-start { lit_ax::lit_bytes(); }
-//@ proof-before /^\s*Some\(SubscriptionName \{\s*$/ { let s = unparsed.spec_bytes(); let n = project_id.spec_bytes().len() as int; assert(s.subrange(9, s.len() as int).subrange(0, n) =~= s.subrange(9, 9 + n)); lemma_accept(s, mid_subs(), project_id.spec_bytes(), subscription_id.spec_bytes()); }
+//@ proof-before[C18] /^\s*Some\(SubscriptionName \{\s*$/ { let s = unparsed.spec_bytes(); let n = project_id.spec_bytes().len() as int; assert(s.subrange(9, s.len() as int).subrange(0, n) =~= s.subrange(9, 9 + n)); lemma_accept(s, mid_subs(), project_id.spec_bytes(), subscription_id.spec_bytes()); }
 //@ closure 1 ret tr: &str
 //@ closure 1 ensures tr.spec_bytes() == trimmed(s.spec_bytes(), 47u8)
 //@end
